@@ -177,8 +177,8 @@ pub fn gen_spec(seed: u64, run: u64, fl: MtFlavour) -> MtSpec {
         let mut prog = Vec::new();
         // weights: alloc_bytes, aligned, typed, drop, detach_forget, rewrite, check, discard, clone, drop_arena, send, recv
         let w: [u32; 12] = match fl {
-            MtFlavour::Safety => [30, 10, 22, 36, 2, 4, 3, 1, 0, 0, 0, 0],
-            MtFlavour::Liveness => [30, 8, 18, 36, 4, 0, 0, 4, 0, 0, 0, 0],
+            MtFlavour::Safety => [30, 10, 22, 36, 2, 4, 3, 1, 1, 1, 1, 1],
+            MtFlavour::Liveness => [30, 8, 18, 36, 4, 0, 0, 4, 1, 1, 1, 1],
             MtFlavour::Hb => [28, 8, 18, 34, 2, 4, 2, 1, 4, 4, 5, 5],
             MtFlavour::Lifecycle => [22, 6, 16, 30, 5, 0, 0, 0, 9, 9, 6, 6],
         };
